@@ -506,8 +506,13 @@ class CoCondition:
         me.notified = False
         self.waiters.append(me)
         self.holder = None
-        s.point("cond:wait", pred=lambda: me.notified and self.holder is None)
+        # untimed model of time: a wait with a timeout may time out at any moment (some other thread is slow)
+        timed = timeout is not None
+        s.point("cond:wait", pred=lambda: (me.notified or timed) and self.holder is None)
         self.holder = me
+        if not me.notified:
+            self.waiters.remove(me)
+            return False
         return True
 
     def wait_for(self, predicate, timeout=None):
@@ -515,9 +520,11 @@ class CoCondition:
         me.cond_before = self.rt.observe()
         r = predicate()
         while not r:
-            self.wait()
+            notified = self.wait(timeout)
             me.cond_before = self.rt.observe()
             r = predicate()
+            if not notified:
+                break                       # timed out: return whatever the predicate says now
         return r
 
     def notify(self, n=1):
@@ -681,6 +688,8 @@ class Runtime:
         self.max_materialised = 0
         self.max_inflight = 0
         self.serial_started = set()
+        self.write_count = {}             # tensor object -> number of evaluations (tofile calls)
+        self.open_failed = False
         self.inner_workers = {}           # pool -> next local index
         self.observed_pools = {}          # pool -> ("parallel", k) | ("serial", 1)
         self.yielded = {}                 # pool -> futures already yielded by as_completed
@@ -840,6 +849,7 @@ class Runtime:
 # --------------------------------------------------------------------------- implementation side
 
 import contextlib
+import errno
 import json
 import random
 import shutil
@@ -856,7 +866,26 @@ class SaveCancelled(BaseException):
 
 def _injected(tensor_or_kind, what):
     kind = tensor_or_kind if isinstance(tensor_or_kind, str) else getattr(tensor_or_kind, "_c09_exc", "runtime")
-    return SaveCancelled(f"injected {what} cancellation") if kind == "base" else RuntimeError(f"injected {what} failure")
+    if kind == "base":
+        return SaveCancelled(f"injected {what} cancellation")
+    if kind == "oserror":
+        return OSError(errno.ENOSPC, f"injected {what} failure: no space left on device")
+    if kind == "oserror-once":
+        return OSError(errno.EIO, f"injected transient {what} failure")
+    return RuntimeError(f"injected {what} failure")
+
+
+def _should_inject(tensor) -> bool:
+    """Does this evaluation of a failing tensor raise an injected exception?  ("short": the real copy loop raises)"""
+    if not getattr(tensor, "_c09_wfail", False):
+        return False
+    kind = getattr(tensor, "_c09_exc", "runtime")
+    if kind == "short":
+        return False
+    if kind == "oserror-once":
+        tensor._c09_attempts = getattr(tensor, "_c09_attempts", 0) + 1
+        return tensor._c09_attempts == 1
+    return True
 
 
 class _RecFile:
@@ -889,7 +918,7 @@ def _classes():
         def tofile(self, file):
             h = getattr(self, "_c09_hook", None)
             if h is None:
-                if getattr(self, "_c09_wfail", False):
+                if _should_inject(self):
                     raise _injected(self, "write")
                 return super().tofile(file)
             return h(self, file, ir.Tensor.tofile)
@@ -898,7 +927,7 @@ def _classes():
         def tofile(self, file):
             h = getattr(self, "_c09_hook", None)
             if h is None:
-                if getattr(self, "_c09_wfail", False):
+                if _should_inject(self):
                     raise _injected(self, "write")
                 return super().tofile(file)
             return h(self, file, ir.ExternalTensor.tofile)
@@ -934,8 +963,10 @@ def build_model(hc, workdir, with_failures=True):
             if t["ext"]:
                 fn = f"src_{o}.bin"
                 pre = o % 3
+                short = with_failures and t["wfail"] and t.get("exc") == "short"
                 with open(os.path.join(workdir, fn), "wb") as f:
-                    f.write(b"\xee" * pre + data[i] + b"\xdd\xdd")
+                    # "short": the source file ends one byte before the tensor does (the copy loop raises OSError)
+                    f.write(b"\xee" * pre + (data[i][:-1] if short else data[i] + b"\xdd\xdd"))
                 obj = cls["ext"](fn, pre, len(data[i]), ir.DataType.UINT8, shape=ir.Shape([len(data[i])]),
                                  name=f"w{i}", base_dir=workdir)
             else:
@@ -1019,6 +1050,18 @@ def reference(hc, workdir) -> dict:
             "limit": limit, "nw": sum(k)}
 
 
+def _failing_open(flagholder):
+    """`open` as seen by external_data: the first worker descriptor (mode r+b) fails with EMFILE."""
+    import builtins
+
+    def fake_open(path, mode="r", *a, **k):
+        if mode == "r+b" and not flagholder.open_failed:
+            flagholder.open_failed = True
+            raise OSError(errno.EMFILE, "injected: too many open files", os.fspath(path))
+        return builtins.open(path, mode, *a, **k)
+    return fake_open
+
+
 def run_coop(hc, plan, workdir, chooser, pickfn=None, keyfn=None, max_steps=4000, timeout=60.0) -> dict:
     """One cooperative run of the real unload_from_model under the given scheduler policy."""
     from onnx_ir import _core
@@ -1041,6 +1084,7 @@ def run_coop(hc, plan, workdir, chooser, pickfn=None, keyfn=None, max_steps=4000
         if users:
             rt.problems.append(f"tensor object {o} evaluated by {me.name} while {users[0].name} is still using it")
         users.append(me)
+        rt.write_count[o] = rt.write_count.get(o, 0) + 1
         held = {"n": 0}
 
         def account(n):
@@ -1054,7 +1098,7 @@ def run_coop(hc, plan, workdir, chooser, pickfn=None, keyfn=None, max_steps=4000
                 account(need_of[o])
             sched.point("write")
             sched.emit(rt._wrk(me), 13 if tensor._c09_wfail else 12, me.task)
-            if tensor._c09_wfail:
+            if _should_inject(tensor):
                 raise _injected(tensor, "write")
             if tensor._c09_ext:
                 def on_buffer(n):
@@ -1117,6 +1161,8 @@ def run_coop(hc, plan, workdir, chooser, pickfn=None, keyfn=None, max_steps=4000
 
     saved = (ed.threading, ed.concurrent, ed._ByteBudget)
     ed.threading, ed.concurrent, ed._ByteBudget = rt.threading, rt.concurrent, Budget
+    if hc.get("open_fail"):
+        ed.open = _failing_open(rt)
     t0 = time.time()
     try:
         with _chunk(hc):
@@ -1125,6 +1171,8 @@ def run_coop(hc, plan, workdir, chooser, pickfn=None, keyfn=None, max_steps=4000
             finished = sched.done.wait(timeout)
     finally:
         ed.threading, ed.concurrent, ed._ByteBudget = saved
+        if "open" in vars(ed):
+            del ed.open
     sched._seal() if sched.outcome == "finished" else None
     for t in objs.values():
         t._c09_hook = None
@@ -1136,6 +1184,7 @@ def run_coop(hc, plan, workdir, chooser, pickfn=None, keyfn=None, max_steps=4000
            "enabled_counts": sched.enabled_counts, "problems": rt.problems, "cb_log": rt.cb_log,
            "max_materialised": rt.max_materialised, "max_inflight": rt.max_inflight,
            "observed_pools": rt.observed_pools, "nbudgets": len(rt.budgets),
+           "write_counts": dict(rt.write_count), "open_failed": rt.open_failed,
            "files": _list_files(out) if sched.outcome == "finished" else None,
            "threads": [t.name for t in sched.threads], "wall": time.time() - t0}
     shutil.rmtree(wd, ignore_errors=True)
@@ -1290,7 +1339,13 @@ def oracle(hc, plan, res) -> list[str]:
         bad += res["problems"]
         return bad
     bad += res["problems"]
-    any_fail = any(t["cbfail"] or t["wfail"] for t in hc["tensors"])
+    any_fail = any(t["cbfail"] or t["wfail"] for t in hc["tensors"]) or bool(res.get("open_failed"))
+    uses = {}
+    for t in hc["tensors"]:
+        uses[t["obj"]] = uses.get(t["obj"], 0) + 1
+    for o, k in sorted((res.get("write_counts") or {}).items()):
+        if k > uses.get(int(o), 0):
+            bad.append(f"tensor object {o} evaluated {k} times for {uses.get(int(o), 0)} initializer(s)")
     n = len(hc["tensors"])
     idx = [i for i, _ in res["cb_log"]]
     if res["outcome"] == "ok":
@@ -1321,6 +1376,26 @@ def oracle(hc, plan, res) -> list[str]:
 
 # --------------------------------------------------------------------------- generators
 
+def _inject_failure(rng, tensors, i, write=None):
+    """Mark tensor index i (callback) or its object (write) as failing, with a kind of exception:
+    RuntimeError, BaseException (cancellation), OSError persistent / transient, short ExternalTensor source."""
+    if write is None:
+        write = rng.random() < 0.5
+    kind = rng.choice(["runtime", "base", "oserror", "oserror"])
+    if not write:
+        tensors[i]["cbfail"] = True
+        tensors[i]["exc"] = kind
+        return
+    same = [t for t in tensors if t["obj"] == tensors[i]["obj"]]
+    if len(same) == 1 and rng.random() < 0.25:
+        kind = "oserror-once"
+    if tensors[i]["ext"] and rng.random() < 0.5:
+        kind = "short"
+    for t in same:
+        t["wfail"] = True
+        t["exc"] = kind
+
+
 def gen_hc(rng, size="small", fail=None):
     if size == "twolevel":
         # sharded save whose inner writers are parallel too: max_workers >= 3 * shards
@@ -1339,16 +1414,7 @@ def gen_hc(rng, size="small", fail=None):
         if rng.random() < 0.4 and len(tensors) > 2:
             tensors[-1]["obj"] = tensors[0]["obj"]          # a tensor object shared across shards
         if fail if fail is not None else rng.random() < 0.35:
-            i = rng.randrange(len(tensors))
-            kind = rng.choice(["runtime", "base"])
-            if rng.random() < 0.5:
-                tensors[i]["cbfail"] = True
-                tensors[i]["exc"] = kind
-            else:
-                for t in tensors:
-                    if t["obj"] == tensors[i]["obj"]:
-                        t["wfail"] = True
-                        t["exc"] = kind
+            _inject_failure(rng, tensors, rng.randrange(len(tensors)))
         return {"tensors": tensors, "max_workers": shards * rng.choice([3, 3, 4]), "cap": cap,
                 "max_shard": unit * per[0], "chunk": None, "tseed": rng.randrange(1 << 30)}
     if size == "extchunk":
@@ -1360,7 +1426,7 @@ def gen_hc(rng, size="small", fail=None):
         if rng.random() < 0.4:
             tensors.append({"len": rng.choice([1, 2, cap]), "obj": n, "ext": False, "cbfail": False, "wfail": False})
         if fail if fail is not None else rng.random() < 0.2:
-            tensors[rng.randrange(len(tensors))].update(wfail=True, exc=rng.choice(["runtime", "base"]))
+            _inject_failure(rng, tensors, rng.randrange(len(tensors)), write=True)
         return {"tensors": tensors, "max_workers": mw, "cap": cap,
                 "max_shard": rng.choice([None, None, sum(t["len"] for t in tensors)]), "chunk": chunk,
                 "tseed": rng.randrange(1 << 30)}
@@ -1391,16 +1457,7 @@ def gen_hc(rng, size="small", fail=None):
         fail = rng.random() < 0.35
     if fail:
         for _ in range(rng.choice([1, 1, 2])):
-            i = rng.randrange(n)
-            kind = rng.choice(["runtime", "base"])
-            if rng.random() < 0.5:
-                tensors[i]["cbfail"] = True
-                tensors[i]["exc"] = kind
-            else:
-                for t in tensors:
-                    if t["obj"] == tensors[i]["obj"]:
-                        t["wfail"] = True
-                        t["exc"] = kind
+            _inject_failure(rng, tensors, rng.randrange(n))
     max_shard = None
     if size == "oneshard":
         # sharding requested but everything fits in ONE shard: the non-concurrent shard loop with a parallel
@@ -1408,9 +1465,12 @@ def gen_hc(rng, size="small", fail=None):
         max_shard = sum(t["len"] for t in tensors) + rng.choice([0, 1, 50])
     elif size != "tiny" and rng.random() < (0.45 if size == "large" else 0.3):
         max_shard = rng.choice([2, 4, 6, 10, 16])
-    return {"tensors": tensors, "max_workers": mw, "cap": cap, "max_shard": max_shard,
-            "chunk": rng.choice([None, 2, 4]) if any(t["ext"] for t in tensors) else None,
-            "tseed": rng.randrange(1 << 30)}
+    hc = {"tensors": tensors, "max_workers": mw, "cap": cap, "max_shard": max_shard,
+          "chunk": rng.choice([None, 2, 4]) if any(t["ext"] for t in tensors) else None,
+          "tseed": rng.randrange(1 << 30)}
+    if size in ("small", "large", "oneshard") and not fail and rng.random() < 0.12:
+        hc["open_fail"] = 1           # EMFILE when the first worker opens its descriptor (oracle only, not in the model)
+    return hc
 
 
 def describe(hc, plan) -> str:
@@ -1433,7 +1493,7 @@ def soak(hc, plan, workdir, rng, runs) -> list[str]:
         out = os.path.join(wd, "out")
         os.makedirs(out)
         mu = threading.Lock()
-        st = {"in_cb": 0, "mat": 0, "maxmat": 0, "cb": [], "use": {}, "problems": []}
+        st = {"in_cb": 0, "mat": 0, "maxmat": 0, "cb": [], "use": {}, "problems": [], "wcount": {}}
         delays = [rng.random() * 0.0008 for _ in range(64)]
         budgets = []
 
@@ -1447,6 +1507,7 @@ def soak(hc, plan, workdir, rng, runs) -> list[str]:
                     held["n"] = n
                     st["maxmat"] = max(st["maxmat"], st["mat"])
             with mu:
+                st["wcount"][o] = st["wcount"].get(o, 0) + 1
                 st["use"][o] = st["use"].get(o, 0) + 1
                 if st["use"][o] > 1:
                     st["problems"].append(f"tensor object {o} used by two threads at once")
@@ -1454,7 +1515,7 @@ def soak(hc, plan, workdir, rng, runs) -> list[str]:
                 if not tensor._c09_ext:
                     account(tensor._c09_need)
                 time.sleep(delays[(o * 7 + len(st["cb"])) % 64])
-                if tensor._c09_wfail:
+                if _should_inject(tensor):
                     raise _injected(tensor, "write")
                 if tensor._c09_ext:
                     def on_buffer(n):
@@ -1494,6 +1555,11 @@ def soak(hc, plan, workdir, rng, runs) -> list[str]:
         ed._ByteBudget = Budget
         box = {}
 
+        class _Flag:
+            open_failed = False
+        if hc.get("open_fail"):
+            ed.open = _failing_open(_Flag)
+
         def call(box=box, model=model, out=out, callback=callback):
             try:
                 ed.unload_from_model(model, out, "m.data", max_shard_size_bytes=hc["max_shard"],
@@ -1510,6 +1576,8 @@ def soak(hc, plan, workdir, rng, runs) -> list[str]:
                 th.join(30.0)
         finally:
             ed._ByteBudget = orig_budget
+            if "open" in vars(ed):
+                del ed.open
         if th.is_alive():
             return [f"save does not terminate with real threads (no progress for 30 s): run {r}"]
         outcome = box["outcome"]
@@ -1525,7 +1593,8 @@ def soak(hc, plan, workdir, rng, runs) -> list[str]:
                 st["problems"].append(f"budget not released: in_flight={b._in_flight} oversized={b._oversized_active}")
         res = {"sched_outcome": "finished", "problems": st["problems"], "outcome": outcome, "message": "",
                "cb_log": [(i, "?") for i in st["cb"]], "files": _list_files(out), "nbudgets": 0,
-               "max_inflight": 0, "max_materialised": st["maxmat"]}
+               "max_inflight": 0, "max_materialised": st["maxmat"], "write_counts": dict(st["wcount"]),
+               "open_failed": _Flag.open_failed}
         for t in objs.values():
             t._c09_hook = None
         shutil.rmtree(wd, ignore_errors=True)
@@ -1648,7 +1717,8 @@ class Collector:
         # an error path with cancellation, or a two-level run)
         if codes & {10, 11, 33} or plan["outer"]:
             ck.nontriv((hc, res["choices"], res["picks"]))
-        if keep_trace and res["sched_outcome"] == "finished" and len(self.cases) < self.trace_budget:
+        if keep_trace and res["sched_outcome"] == "finished" and len(self.cases) < self.trace_budget \
+                and not hc.get("open_fail"):
             self.cases.append((hc, plan, res))
         return bad
 
@@ -1774,8 +1844,10 @@ def run(ck) -> None:
             ck.hist("configs_special", "sharding requested, one shard, max_workers > 1")
         if any(t["ext"] and t["len"] > hc["cap"] for t in hc["tensors"]) and hc.get("chunk"):
             ck.hist("configs_special", "ExternalTensor longer than budget, userspace copy in small chunks")
-        if any((t["cbfail"] or t["wfail"]) and t.get("exc") == "base" for t in hc["tensors"]):
-            ck.hist("configs_special", "BaseException injected")
+        for kind in sorted({t.get("exc", "runtime") for t in hc["tensors"] if t["cbfail"] or t["wfail"]}):
+            ck.hist("configs_special", f"fault kind {kind}")
+        if hc.get("open_fail"):
+            ck.hist("configs_special", "fault kind EMFILE on worker open")
         for j in range(per_cfg):
             r = random.Random(rng.random())
             chooser = pct_chooser(r, depth=r.choice([1, 2, 3, 5])) if j % 2 else random_chooser(r)
